@@ -20,6 +20,10 @@ type TreeCfg struct {
 	// BigSteps mixes timestamp steps of minutes into the usual 1-3 s so that
 	// median times differ between branches by more than a 512-second unit.
 	BigSteps bool
+	// OddScripts lets generated transactions create outputs whose scripts sit
+	// on the boundaries of the persisted formats (special compressed forms,
+	// size-prefix widths, the 10000-byte maximum) - spendable ones included.
+	OddScripts bool
 }
 
 // GenTree draws a block tree.
@@ -32,6 +36,7 @@ func GenTree(t *rapid.T, cfg TreeCfg) *Tree {
 	mat := rapid.SampledFrom(mats).Draw(t, "maturity")
 	tr := NewTree(fam, NewParams(fam, mat))
 	tr.NoUtxo = cfg.NoUtxo
+	tr.OddScripts = cfg.OddScripts
 	n := rapid.IntRange(cfg.MinBlocks, cfg.MaxBlocks).Draw(t, "blocks")
 	invalidLeft := 0
 	if cfg.MaxInvalid > 0 {
@@ -67,6 +72,19 @@ func GenTree(t *rapid.T, cfg TreeCfg) *Tree {
 		switch fam {
 		case FamWork:
 			opt.Hard = rapid.IntRange(0, 3).Draw(t, "hard") == 0
+		case FamRetarget, FamRetarget94:
+			// fast blocks (difficulty rises, lower clamp), on-target blocks, minimum-difficulty
+			// blocks (more than 20 s after the parent) and long gaps (upper clamp)
+			switch rapid.IntRange(0, 5).Draw(t, "pace") {
+			case 0, 1:
+				opt.TimeDelta = int64(rapid.IntRange(1, 3).Draw(t, "dt"))
+			case 2:
+				opt.TimeDelta = int64(rapid.IntRange(8, 20).Draw(t, "dt"))
+			case 3, 4:
+				opt.TimeDelta = int64(rapid.IntRange(21, 45).Draw(t, "dt"))
+			default:
+				opt.TimeDelta = rapid.SampledFrom([]int64{100, 160, 161, 400}).Draw(t, "dt")
+			}
 		default:
 			opt.TimeDelta = int64(rapid.IntRange(1, 3).Draw(t, "dt"))
 			if cfg.BigSteps && rapid.IntRange(0, 2).Draw(t, "bigStep") == 0 {
@@ -169,6 +187,8 @@ func GenTxs(t *rapid.T, tr *Tree, parent *Node, k int) []*wire.MsgTx {
 			script := OpTrue
 			if rapid.IntRange(0, 9).Draw(t, "opret") == 0 {
 				script = []byte{0x6a, 0x01, byte(i)} // provably unspendable
+			} else if tr.OddScripts && rapid.IntRange(0, 5).Draw(t, "odd") == 0 {
+				script = oddScript(t)
 			}
 			outs = append(outs, &wire.TxOut{Value: v, PkScript: script})
 		}
@@ -295,4 +315,78 @@ func GenSequence(t *rapid.T, tr *Tree, cfg SeqCfg) []Step {
 		}
 	}
 	return steps
+}
+
+
+// oddScript draws an output script on a boundary of the persisted formats.
+func oddScript(t *rapid.T) []byte {
+	g := []byte{0x79, 0xbe, 0x66, 0x7e, 0xf9, 0xdc, 0xbb, 0xac, 0x55, 0xa0, 0x62, 0x95, 0xce, 0x87, 0x0b, 0x07, 0x02, 0x9b, 0xfc, 0xdb, 0x2d, 0xce, 0x28, 0xd9, 0x59, 0xf2, 0x81, 0x5b, 0x16, 0xf8, 0x17, 0x98}
+	gy := []byte{0x48, 0x3a, 0xda, 0x77, 0x26, 0xa3, 0xc4, 0x65, 0x5d, 0xa4, 0xfb, 0xfc, 0x0e, 0x11, 0x08, 0xa8, 0xfd, 0x17, 0xb4, 0x48, 0xa6, 0x85, 0x54, 0x19, 0x9c, 0x47, 0xd0, 0x8f, 0xfb, 0x10, 0xd4, 0xb8}
+	h20 := rapid.SliceOfN(rapid.Byte(), 20, 20).Draw(t, "h20")
+	switch rapid.IntRange(0, 9).Draw(t, "oddKind") {
+	case 0:
+		return append(append([]byte{0x76, 0xa9, 0x14}, h20...), 0x88, 0xac) // P2PKH form
+	case 1:
+		return append(append([]byte{0xa9, 0x14}, h20...), 0x87) // P2SH form
+	case 2:
+		return append(append([]byte{0x21, 0x02}, g...), 0xac) // P2PK, compressed, on the curve
+	case 3:
+		x := rapid.SliceOfN(rapid.Byte(), 32, 32).Draw(t, "x32")
+		return append(append([]byte{0x21, byte(2 + rapid.IntRange(0, 1).Draw(t, "par"))}, x...), 0xac) // P2PK form, arbitrary x
+	case 4:
+		return append(append(append([]byte{0x41, 0x04}, g...), gy...), 0xac) // P2PK, uncompressed, on the curve
+	case 5:
+		y := append([]byte{}, gy...)
+		y[31] ^= 1
+		return append(append(append([]byte{0x41, 0x04}, g...), y...), 0xac) // P2PK form, uncompressed, off the curve
+	case 6:
+		return []byte{} // empty script
+	case 7:
+		return PaddedSpendableScript(rapid.SampledFrom([]int{10001, 10002}).Draw(t, "tooBig")) // never enters the UTXO set
+	case 8:
+		return PaddedSpendableScript(rapid.SampledFrom([]int{9999, 10000}).Draw(t, "maxLen"))
+	}
+	return PaddedSpendableScript(rapid.SampledFrom([]int{100, 121, 122, 127, 128, 129, 253, 254, 600}).Draw(t, "len"))
+}
+
+// PaddedSpendableScript returns an anyone-can-spend script of exactly n >= 100
+// bytes: pushes of zero bytes that are dropped again, then OP_TRUE.
+func PaddedSpendableScript(n int) []byte {
+	if n < 100 {
+		panic("PaddedSpendableScript: n < 100")
+	}
+	s := make([]byte, 0, n)
+	r := n - 1
+	for r > 0 {
+		switch {
+		case r == 1:
+			s = append(s, 0x61) // OP_NOP
+			r--
+		case r <= 77:
+			s = append(s, byte(r-2))
+			s = append(s, make([]byte, r-2)...)
+			s = append(s, 0x75) // OP_DROP
+			r = 0
+		default:
+			c := r
+			if c > 524 {
+				c = 524
+			}
+			l := c - 4
+			s = append(s, 0x4d, byte(l), byte(l>>8)) // OP_PUSHDATA2
+			s = append(s, make([]byte, l)...)
+			s = append(s, 0x75)
+			r -= c
+		}
+	}
+	return append(s, 0x51)
+}
+
+// IsAnyoneCanSpend recognises the scripts the generators can spend with an
+// empty signature script.
+func IsAnyoneCanSpend(s []byte) bool {
+	if len(s) == 1 && s[0] == 0x51 {
+		return true
+	}
+	return len(s) >= 100 && len(s) <= 10000 && s[0] == 0x4d && s[len(s)-1] == 0x51
 }
